@@ -47,7 +47,9 @@ def run(ctx):
         d = rnd.choice(["int64", "float64", "int32", "nint64", "nfloat64"])
         sh = ops.rand_shape(rnd, 2, 0.05, (1, 2, 3), min_rank=1)
         a, b = ops.tensor(rnd, d, sh, "small"), ops.tensor(rnd, d, sh if rnd.random() < 0.6 else sh[1:], "small")
-        form = rnd.choice(["t = a.copy(); t += b; out = t", "t = a.copy(); t *= b; out = t", "t = a.copy(); t[...] = b; out = t",
+        form = rnd.choice(["u = a.copy(); a[0] = b[0] if b.ndim == a.ndim else b; out = [u, a]", "t = a.copy(); u = t.copy(); t[...] = b; out = [u + 0, u, t]",
+                           "u = ndx.asarray(a, copy=True); a[-1] = b[-1] if b.ndim == a.ndim else b; out = [u, a, u * 1]",
+                           "t = a.copy(); t += b; out = t", "t = a.copy(); t *= b; out = t", "t = a.copy(); t[...] = b; out = t",
                            "t = a.copy(); t[0] = b[0] if b.ndim == t.ndim else b; out = t", "t = a.copy(); u = t; t -= b; out = u",
                            "t = a.copy(); t += b; out = t + 1"])
         if ops.nullable(d) and rnd.random() < 0.6:
